@@ -25,7 +25,7 @@ func vnTplChars(tag string, max int) string {
 	s := ""
 	for i := 0; i < n; i++ {
 		id := tag + string(rune('0'+i))
-		switch vRange(id+"k", 0, 3) {
+		switch vRange(id+"k", 0, 5) {
 		case 0:
 			b := vBytes(id, 1)
 			c := b[0]
@@ -37,6 +37,13 @@ func vnTplChars(tag string, max int) string {
 			s += "\\${"
 		case 3:
 			s += "$"
+		case 4: // an escaped backslash: the character after it is NOT escaped
+			s += "\\\\"
+		case 5: // any escaped character
+			b := vBytes(id+"e", 1)
+			c := b[0]
+			vAssume(c != 0 && c < 0x80)
+			s += "\\" + string(b)
 		}
 	}
 	return s
